@@ -250,7 +250,19 @@ class ConstantMonomial:
             # Fraction case
             coeff = Fraction(self.coeff)
             num, denom = coeff.numerator, coeff.denominator
-            return ConstantMonomial(1, [(num, exp), (denom, -exp)] + [(n, e * exp) for n, e in self.factors])
+
+            def base(n, e):
+                # (n ^ e) ^ exp = abs(n) ^ (e * exp) for an even root of an even power
+                # of a negative constant, e.g. sqrt(sec(3) ^ 2) = abs(sec(3))
+                if isinstance(n, expr.Expr) and exp.denominator % 2 == 0 and \
+                   isinstance(e, (int, Fraction)) and e % 2 == 0:
+                    try:
+                        if expr.eval_expr(n) < 0:
+                            return expr.Fun('abs', n)
+                    except (ValueError, ZeroDivisionError, TypeError, OverflowError, NotImplementedError):
+                        return expr.Fun('abs', n)
+                return n
+            return ConstantMonomial(1, [(num, exp), (denom, -exp)] + [(base(n, e), e * exp) for n, e in self.factors])
         else:
             raise ValueError
 
